@@ -31,7 +31,7 @@ func smoke(a *Args) error {
 		sc := &ref.SetupClient{Pin: "001-02-003", ID: id, Rnd: rndFunc(r)}
 		err = sc.Run(c)
 		c.Close()
-		if err == ref.ErrRedraw && try < 5 {
+		if (err == ref.ErrRedraw || err == ref.ErrRedrawB) && try < 5 {
 			continue
 		}
 		if err != nil {
